@@ -187,6 +187,21 @@ Theorem retry_learner_never_retries : forall c s l tout now l',
 Proof. exact retry_learner_is_final. Qed.
 Print Assumptions retry_learner_never_retries.
 
+(* Discharges the scheduler-side hypothesis bg_scripts_ok of
+   Sched.background_bounded for the real analyzers: the learner returned
+   inside a Succeeded answer (smallerBackgroundLearner; the fallback analyzer
+   never returns one) returns no successor from Failed and no further
+   background learner from Succeeded.  No hypothesis on configuration,
+   message or size-class list is needed. *)
+Theorem background_learner_never_retries : forall c s l d scs bgt l',
+  ph (r_sess (succeeded c s l d scs bgt)) = PLearner l' ->
+  forall s' tout now d' scs' bgt',
+    (ph (r_sess (failed c s' l' tout now)) = PIdle /\ r_out (failed c s' l' tout now) = OutRetry 0 0 false) /\
+    (ph (r_sess (succeeded c s' l' d' scs' bgt')) = PIdle /\
+     r_out (succeeded c s' l' d' scs' bgt') = OutChoice 0 0 0 false).
+Proof. exact background_learner_is_final. Qed.
+Print Assumptions background_learner_never_retries.
+
 Theorem smaller_failure_retried_on_largest : forall c s sm smT lg lgT tout now,
   exists ex, r_sess (failed c s (LSmallerFg sm smT lg lgT) tout now)
              = mkSess (PLearner (LLargestFg sm ex lg)) (st s) (orig s) (recorded s) /\
